@@ -1,4 +1,5 @@
 use super::*;
+use crate::ast_util::purge_trivia;
 use crate::ast_util::range;
 use std::convert::Infallible;
 
@@ -114,7 +115,7 @@ impl Visitor for UDim2CountVisitor {
                     call_range: range(call),
                     args_provided,
                     args_are_between_0_and_1: arguments.iter().all(|argument| {
-                        match argument.to_string().parse::<f32>() {
+                        match purge_trivia(argument).to_string().parse::<f32>() {
                             Ok(number) => (0.0..=1.0).contains(&number),
                             Err(_) => false,
                         }
